@@ -107,4 +107,115 @@ theorem count_false_take_map {α : Type} (c : α → Bool) (u : List α) (k : Na
   apply List.countP_congr
   intro x _; cases h : c x <;> simp [h]
 
+theorem inj_of_nodup_map {α β : Type} (f : α → β) (l : List α) (h : (l.map f).Nodup) (x y : α)
+    (hx : x ∈ l) (hy : y ∈ l) (hxy : f x = f y) : x = y := by
+  induction l with
+  | nil => simp at hx
+  | cons a l ih =>
+    rw [List.map_cons, List.nodup_cons] at h
+    rcases List.mem_cons.mp hx with rfl | hx' <;> rcases List.mem_cons.mp hy with rfl | hy'
+    · rfl
+    · exact absurd (List.mem_map.mpr ⟨y, hy', hxy.symm⟩) h.1
+    · exact absurd (List.mem_map.mpr ⟨x, hx', hxy⟩) h.1
+    · exact ih h.2 hx' hy'
+
+/-! ### the fresh treatment table over an arbitrary duplicate-free key list -/
+
+/-- the table the encoder builds from a (sorted, duplicate-free) key list `u` -/
+def freshTable (ctrl : Name) (u : List (Name × Dose)) : TMap :=
+  tableOf u (numberFrom 0 (u.map (isControl ctrl)))
+
+theorem freshTMap_eq_freshTable (ctrl : Name) (xs : List (Name × Dose)) :
+    freshTMap ctrl xs = freshTable ctrl (sortedKeys xs) := freshTMap_eq ctrl xs
+
+theorem freshTable_length (ctrl : Name) (u : List (Name × Dose)) : (freshTable ctrl u).length = u.length :=
+  tableOf_length _ _ (by simp)
+
+theorem freshTable_keys (ctrl : Name) (u : List (Name × Dose)) : (freshTable ctrl u).map tKey = u :=
+  tableOf_keys _ _ (by simp)
+
+theorem freshTable_ids (ctrl : Name) (u : List (Name × Dose)) :
+    (freshTable ctrl u).map (·.2.2) = numberFrom 0 (u.map (isControl ctrl)) :=
+  tableOf_ids _ _ (by simp)
+
+theorem freshTable_getElem (ctrl : Name) (u : List (Name × Dose)) (k : Nat) (hk : k < u.length) :
+    (freshTable ctrl u)[k]'(by rw [freshTable_length]; exact hk) =
+      (u[k].1, u[k].2, if isControl ctrl u[k] then (-1 : Int) else (((u.take k).countP (fun x => !isControl ctrl x) : Nat) : Int)) := by
+  unfold freshTable
+  rw [tableOf_getElem _ _ k hk (by simpa using hk), numberFrom_getElem 0 _ k (by simpa using hk)]
+  simp only [List.getElem_map, count_false_take_map]
+  simp
+
+theorem mem_freshTable (ctrl : Name) (u : List (Name × Dose)) (e : Name × Dose × Int) :
+    e ∈ freshTable ctrl u ↔ ∃ k, ∃ (hk : k < u.length),
+      e = (u[k].1, u[k].2, if isControl ctrl u[k] then (-1 : Int) else (((u.take k).countP (fun x => !isControl ctrl x) : Nat) : Int)) := by
+  constructor
+  · intro h
+    obtain ⟨k, hk, rfl⟩ := List.getElem_of_mem h
+    have hk' : k < u.length := by rw [freshTable_length] at hk; exact hk
+    exact ⟨k, hk', freshTable_getElem ctrl u k hk'⟩
+  · rintro ⟨k, hk, rfl⟩
+    rw [← freshTable_getElem ctrl u k hk]
+    exact List.getElem_mem _
+
+theorem freshTable_control_iff (ctrl : Name) (u : List (Name × Dose)) (e : Name × Dose × Int) (he : e ∈ freshTable ctrl u) :
+    e.2.2 = -1 ↔ isControl ctrl (e.1, e.2.1) = true := by
+  obtain ⟨k, hk, rfl⟩ := (mem_freshTable ctrl u e).mp he
+  by_cases hc : isControl ctrl u[k] = true
+  · simp [hc]
+  · have hc' : isControl ctrl (u[k].1, u[k].2) = false := by simpa using hc
+    simp only [hc]
+    constructor
+    · intro h; simp at h
+    · intro h; simp at h
+
+theorem filter_tableOf_ids (p : Name × Dose → Bool) (u : List (Name × Dose)) (ids : List Int) :
+    ((tableOf u ids).filter (fun e => p (tKey e))).map (·.2.2) = maskFilter ids (u.map p) := by
+  induction u generalizing ids with
+  | nil => cases ids <;> simp [tableOf, maskFilter]
+  | cons a u ih =>
+    cases ids with
+    | nil => simp [tableOf, maskFilter]
+    | cons i ids =>
+      have := ih ids
+      simp only [tableOf, List.zip_cons_cons, List.map_cons, List.filter_cons, tKey, maskFilter] at this ⊢
+      by_cases hp : p a = true
+      · simp only [hp, if_true, List.map_cons, this]
+      · simp only [hp]
+        exact this
+
+/-- the non-control ids of the fresh table, in table order, are `0, 1, …, m-1` -/
+theorem freshTable_noncontrol_ids (ctrl : Name) (u : List (Name × Dose)) :
+    ((freshTable ctrl u).filter (fun e => !isControl ctrl (tKey e))).map (·.2.2)
+      = (List.range (u.countP (fun x => !isControl ctrl x))).map (fun (i : Nat) => (i : Int)) := by
+  unfold freshTable
+  rw [filter_tableOf_ids (fun k => !isControl ctrl k)]
+  have := numberFrom_noncontrol 0 (u.map (isControl ctrl))
+  simp only [List.map_map] at this
+  rw [show (fun k => !isControl ctrl k) = ((fun x => !x) ∘ isControl ctrl) from rfl, this]
+  rw [List.count_eq_countP, List.countP_map]
+  congr 1
+  · funext i; simp
+  · congr 1
+    apply List.countP_congr
+    intro x _; cases h : isControl ctrl x <;> simp [h]
+
+theorem freshTable_inj (ctrl : Name) (u : List (Name × Dose)) (e₁ e₂ : Name × Dose × Int)
+    (h₁ : e₁ ∈ freshTable ctrl u) (h₂ : e₂ ∈ freshTable ctrl u) (hid : e₁.2.2 = e₂.2.2) (hnc : e₁.2.2 ≠ -1) : e₁ = e₂ := by
+  have c₁ : isControl ctrl (tKey e₁) = false := by
+    have := freshTable_control_iff ctrl u e₁ h₁
+    cases h : isControl ctrl (tKey e₁)
+    · rfl
+    · exact absurd (this.mpr h) hnc
+  have c₂ : isControl ctrl (tKey e₂) = false := by
+    have := freshTable_control_iff ctrl u e₂ h₂
+    cases h : isControl ctrl (tKey e₂)
+    · rfl
+    · exact absurd (hid ▸ this.mpr h) hnc
+  have hnd : (((freshTable ctrl u).filter (fun e => !isControl ctrl (tKey e))).map (·.2.2)).Nodup := by
+    rw [freshTable_noncontrol_ids]
+    rw [List.Nodup, List.pairwise_map]
+    exact List.nodup_range.imp (fun h h' => h (Int.ofNat_inj.mp h'))
+  exact inj_of_nodup_map _ _ hnd e₁ e₂ (List.mem_filter.mpr ⟨h₁, by simp [c₁]⟩) (List.mem_filter.mpr ⟨h₂, by simp [c₂]⟩) hid
+
 end Batchie.Screen
